@@ -1,7 +1,252 @@
-//! C24 — not built yet.
-use lv_common::Ctx;
+//! C24 — Syncer fetches missing, insertable heights nearest the head first.
+//!
+//! This module checks the pure function `syncer::calculate_range_to_fetch` (through the hook)
+//! exhaustively over synced ⊆ {1..12} x head 1..=13 x limit 0..=14 and on random u64-wide inputs.
+//! The batch predicate is exported (`check_batch`, `check_batch_ranges`) so that the syncer
+//! simulations (C25/C38) can feed every batch the real `Syncer` requests through the same oracle.
+use lumina_node::block_ranges::{BlockRange, BlockRanges};
+use lumina_node::verif::syncer as hk;
+use lv_common::prelude::*;
+use lv_gen::ranges::{HMAX, ISet, RangesSpec, build_ranges, count_strategy, ranges_spec_strategy};
 
-pub fn run(_ctx: &mut Ctx) {
-    eprintln!("C24: check not built yet");
-    std::process::exit(2);
+use crate::c17::{Val, build_from_model, resolve, to_iset, val_strategy};
+use crate::c18::{Expect, ref_insertion};
+
+/// How an accepted batch is anchored.
+#[derive(Clone, Copy, Debug, PartialEq, Eq)]
+pub enum BatchKind {
+    /// empty range: nothing requested
+    Empty,
+    /// synced is empty and the batch starts at height 1
+    FromGenesis,
+    /// behind the head: the batch starts directly above the highest synced height
+    AboveSyncedHead,
+    /// the batch ends directly below the highest synced range
+    BelowTopRange,
+}
+
+#[derive(Clone, Copy, Debug)]
+pub struct BatchInfo {
+    pub kind: BatchKind,
+    pub len: u64,
+    /// the batch is adjacent to synced heights on (left, right)
+    pub flags: (bool, bool),
+    /// `head < max(synced)`: the subjective head is below already synced heights (see note in `check_batch`)
+    pub head_below_synced: bool,
+}
+
+/// The property's constraints on one requested batch, evaluated on sets.
+///
+/// `synced` = stored ∪ pruned heights, `head` = the syncer's (subjective) network head, `limit` = batch size.
+/// Returns `Err(Failure)` with a root-cause signature `C24:…` when a constraint is broken.
+///
+/// Interpretation: when `head < max(synced)` (the subjective head lags behind heights the node already
+/// synced and verified) the "not above the network head" bound is taken against `max(head, max(synced))`:
+/// heights below an already synced height are certainly not above the real network head.
+pub fn check_batch(synced: &ISet, head: u64, limit: u64, batch: &BlockRange) -> Result<BatchInfo, Failure> {
+    let (a, b) = (*batch.start(), *batch.end());
+    let head_below_synced = synced.max().is_some_and(|m| (head as u128) < m);
+    if a > b {
+        return Ok(BatchInfo { kind: BatchKind::Empty, len: 0, flags: (false, false), head_below_synced });
+    }
+    let ctx = || format!("synced={:?} head={head} limit={limit} batch={a}..={b}", synced.0);
+    if a == 0 {
+        return Err(Failure::new("C24:batch-invalid", format!("batch contains height 0; {}", ctx())));
+    }
+    let (a128, b128) = (a as u128, b as u128);
+    let len = b128 - a128 + 1;
+    if !synced.inter(&ISet::single(a128, b128)).is_empty() {
+        return Err(Failure::new("C24:batch-overlaps-synced", format!("batch contains stored/pruned heights; {}", ctx())));
+    }
+    if len > limit as u128 {
+        return Err(Failure::new("C24:batch-exceeds-limit", format!("batch has {len} heights; {}", ctx())));
+    }
+    let bound = (head as u128).max(synced.max().unwrap_or(0));
+    if b128 > bound {
+        return Err(Failure::new("C24:batch-above-head", format!("batch reaches above the network head; {}", ctx())));
+    }
+    let kind = match (synced.max(), synced.0.last()) {
+        (None, _) if a == 1 => BatchKind::FromGenesis,
+        (Some(m), _) if m < head as u128 && a128 == m + 1 => BatchKind::AboveSyncedHead,
+        (Some(_), Some(&(top_start, _))) if b128 + 1 == top_start => BatchKind::BelowTopRange,
+        _ => {
+            return Err(Failure::new(
+                "C24:batch-not-anchored",
+                format!("batch is neither directly above the highest synced height (while behind the head) nor directly below the highest synced range (nor starts at 1 on an empty store); {}", ctx()),
+            ));
+        }
+    };
+    let flags = match ref_insertion(synced, a, b) {
+        Expect::Ok(p, n) => (p, n),
+        other => {
+            return Err(Failure::new("C24:batch-not-insertable", format!("inserting the batch would be refused ({other:?}); {}", ctx())));
+        }
+    };
+    Ok(BatchInfo { kind, len: len as u64, flags, head_below_synced })
+}
+
+/// Same, for callers holding lumina `BlockRanges` (stored + pruned already united); additionally asks
+/// the real `check_insertion_constraints`.
+pub fn check_batch_ranges(synced: &BlockRanges, head: u64, limit: u64, batch: &BlockRange) -> Result<BatchInfo, Failure> {
+    let s = ISet::normalise(to_iset(synced).0);
+    let info = check_batch(&s, head, limit, batch)?;
+    if info.kind != BatchKind::Empty {
+        if let Err(e) = synced.check_insertion_constraints(batch) {
+            return Err(Failure::new(
+                "C24:batch-not-insertable",
+                format!("check_insertion_constraints refuses the batch: {e}; synced={:?} head={head} limit={limit} batch={batch:?}", s.0),
+            ));
+        }
+    }
+    Ok(info)
+}
+
+/// number of missing heights the function could have chosen from (0 = nothing to fetch)
+fn candidate_gap(s: &ISet, head: u64) -> u128 {
+    match s.0.last() {
+        None => head as u128,
+        Some(&(top_start, top_end)) => {
+            if top_end < head as u128 {
+                head as u128 - top_end
+            } else {
+                let pen = if s.0.len() >= 2 { s.0[s.0.len() - 2].1 } else { 0 };
+                top_start - 1 - pen
+            }
+        }
+    }
+}
+
+/// One evaluation: call the hooked function, apply the predicate, classify.
+fn eval_one(obs: &mut Obs, r: &BlockRanges, s: &ISet, head: u64, limit: u64, digest: u64) -> Result<(), Failure> {
+    let batch = hk::calculate_range_to_fetch(head, r.as_ref(), limit);
+    let info = match check_batch_ranges(r, head, limit, &batch) {
+        Ok(i) => i,
+        Err(f) => {
+            obs.eval(Some(digest));
+            obs.fail(&f.sig, f.msg)?;
+            return Ok(());
+        }
+    };
+    obs.eval((info.kind != BatchKind::Empty).then_some(digest));
+    let gap = candidate_gap(s, head);
+    match info.kind {
+        BatchKind::Empty => {
+            // progress is recorded, not asserted (the property does not state it; C38 owns convergence)
+            if limit == 0 {
+                obs.label("empty-limit-zero");
+            } else if gap == 0 {
+                obs.label("empty-nothing-missing");
+            } else {
+                obs.label("empty-while-missing");
+                obs.note("observation (not asserted): calculate_range_to_fetch returned an empty batch although limit > 0 and heights are missing (see samples labelled empty-while-missing)");
+                obs.sample("empty-while-missing", json!({"synced": format!("{:?}", s.0), "head": head, "limit": limit}));
+            }
+        }
+        BatchKind::FromGenesis => obs.label("from-genesis"),
+        BatchKind::AboveSyncedHead => obs.label("above-synced-head"),
+        BatchKind::BelowTopRange => obs.label("below-top-range"),
+    }
+    if info.kind != BatchKind::Empty {
+        if (info.len as u128) < gap && info.len == limit {
+            obs.label("limit-truncates");
+        }
+        if info.len as u128 == gap {
+            obs.label("takes-whole-gap");
+        }
+        if info.flags == (true, true) {
+            obs.label("bridges-gap-fully");
+        }
+        if info.head_below_synced {
+            obs.label("head-below-synced");
+            if *batch.end() > head {
+                obs.label("batch-above-subjective-head-but-below-synced");
+            }
+        }
+        if *batch.end() == u64::MAX || head == u64::MAX {
+            obs.label("u64-max-edge");
+        }
+        if limit as u128 >= 1 << 63 {
+            obs.label("huge-limit");
+        }
+    }
+    Ok(())
+}
+
+#[derive(Clone, Debug, Serialize, Deserialize)]
+pub enum HeadSel {
+    Val(Val),
+    /// max(synced) + d (saturating)
+    TopPlus(u64),
+}
+
+#[derive(Clone, Debug, Serialize, Deserialize)]
+pub enum LimitSel {
+    Abs(u64),
+    /// size of the gap the function chooses from, plus d
+    GapRel(i8),
+}
+
+#[derive(Clone, Debug, Serialize, Deserialize)]
+pub struct Case {
+    pub synced: RangesSpec,
+    pub queries: Vec<(HeadSel, LimitSel)>,
+}
+
+fn case_strategy() -> impl Strategy<Value = Case> {
+    let head = prop_oneof![
+        3 => val_strategy(false).prop_map(HeadSel::Val),
+        3 => prop_oneof![Just(0u64), Just(1), Just(2), 0u64..600, count_strategy()].prop_map(HeadSel::TopPlus),
+    ];
+    let limit = prop_oneof![3 => count_strategy().prop_map(LimitSel::Abs), 2 => (-2i8..=2).prop_map(LimitSel::GapRel)];
+    (ranges_spec_strategy(6), prop::collection::vec((head, limit), 6..=6)).prop_map(|(synced, queries)| Case { synced, queries })
+}
+
+pub fn run(ctx: &mut Ctx) {
+    ctx.assume("synced = stored ∪ pruned reaches the function as one canonical sorted list (as Worker::fetch_next_batch builds it); head >= 1");
+    ctx.assume("when head < max(synced) the head bound is taken against max(head, max(synced)) (heights below an already synced height are not above the real network head)");
+    ctx.assume("progress (non-empty batch while heights are missing) is recorded, not asserted; fetch_next_batch's real batches are fed to the same predicate by the syncer simulations");
+    ctx.essential(&["from-genesis", "above-synced-head", "below-top-range", "limit-truncates", "bridges-gap-fully", "u64-max-edge", "empty-nothing-missing"]);
+
+    ctx.enumerate(
+        "small-universe",
+        "every synced set ⊆ {1..12} (4096 items) x head in 1..=13 x limit in 0..=14 on calculate_range_to_fetch: batch ∩ synced = ∅, |batch| <= limit, max <= head, anchored (above highest synced when behind / from 1 when empty / directly below the top range), insertable by the set-based reference and by check_insertion_constraints. Non-trivial = non-empty batch; distinct by (synced, head, limit)",
+        true,
+        (0u16..4096).collect::<Vec<_>>(),
+        |idx, obs| {
+            let m = (*idx as u64) << 1;
+            let s = ISet::from_mask(m);
+            let r = build_from_model(&s);
+            for head in 1..=13u64 {
+                for limit in 0..=14u64 {
+                    eval_one(obs, &r, &s, head, limit, (m << 16) | (head << 8) | limit)?;
+                }
+            }
+            Ok(())
+        },
+    );
+
+    let cases = ctx.tier.pick(500_000, 2_000_000);
+    ctx.proptest(
+        "random-u64",
+        "random canonical synced lists (<=6 runs, u64-wide, anchored at 1 or at u64::MAX) x 6 (head, limit) queries: head boundary-biased / edges of synced +-3 / max(synced)+d, limit boundary-biased (0,1,512,2^63,u64::MAX) or the chosen gap's size +-2. Non-trivial = non-empty batch; distinct by (synced, head, limit)",
+        cases,
+        case_strategy,
+        |case, obs| {
+            let s = build_ranges(&case.synced);
+            let r = build_from_model(&s);
+            let ds = digest_of(&s.0);
+            for (h, l) in &case.queries {
+                let head = match h {
+                    HeadSel::Val(v) => resolve(v, &s, 1),
+                    HeadSel::TopPlus(d) => ((s.max().unwrap_or(0) + *d as u128).min(HMAX) as u64).max(1),
+                };
+                let limit = match l {
+                    LimitSel::Abs(x) => *x,
+                    LimitSel::GapRel(d) => (candidate_gap(&s, head) as i128 + *d as i128).clamp(0, HMAX as i128) as u64,
+                };
+                eval_one(obs, &r, &s, head, limit, ds ^ head.rotate_left(19) ^ limit.rotate_left(41))?;
+            }
+            Ok(())
+        },
+    );
 }
